@@ -28,3 +28,10 @@ CLAIMED['C04'] = ('6/C04', 'Bounded symbolic check against the reference dispatc
                   'end; two recorded deviations of the implementation are recognised only when the real trace equals the trace of the '
                   'model variant encoding exactly that deviation.',
                   'symbolic execution (CrossHair+z3) of batching/trigger/discard code against a reference dispatcher with context stack')
+CLAIMED['C05'] = ('6/C05', 'Bounded-exhaustive symbolic fault injection with a differential oracle: one or two failing operations of symbolic kind '
+                  '(13 kinds: raising watcher during set/trigger/batch flush/update/queued callback, rejected value or unknown key at a '
+                  'symbolic position of param.update, unknown trigger name, exception escaping the body of each context manager, rejected '
+                  'constructor value), optionally inside a surrounding batch, symbolic raiser precedence and values; afterwards a fixed probe '
+                  'program runs on the faulted object and on a freshly built twin and the callback traces, values, constant flags and Event '
+                  'state must coincide; applied-before-rejection changes must be announced by the raise.',
+                  'symbolic execution (CrossHair+z3) with symbolic fault kind/position, differential comparison against a fresh twin object')
